@@ -222,6 +222,17 @@ pub fn check_route(c: &RouteCase) -> Verdict {
     }
     match c15::judge(&c.spec, &c.runner, 0, bench_mode, &run) {
         Ok(n) => {
+            // The printed samples / iters cells of every row - one per thread
+            // count - are those of that row's own run (C20's reference,
+            // restricted to the count cells).
+            if c.route == 0 {
+                let shown = super::c20::Case { spec: c.spec.clone(), action: "bench".into(), filters: Vec::new(), ignored: 0, runner: c.runner.clone(), binary: false };
+                if let Verdict::Fail { signature, message } = super::c20::check_case(&shown) {
+                    if matches!(signature.as_str(), "count-cells" | "iters-vs-calls") {
+                        return Verdict::fail(format!("route:printed:{signature}"), message);
+                    }
+                }
+            }
             classify(format!("route={action}"));
             Verdict::pass(n || c.route >= 2)
         }
@@ -244,6 +255,22 @@ pub struct BuilderCliCase {
     pub flags: OptSpec,
     pub env: OptSpec,
     pub bench_mode: bool,
+    /// How a test run is asked for: 0 `--test`; 1 `--bench --test` (what
+    /// `cargo bench -- --test` passes); 2 `--test --bench`. `--test` wins.
+    #[serde(default)]
+    pub test_args_shape: u8,
+}
+
+impl BuilderCliCase {
+    pub fn mode_args(&self) -> Vec<String> {
+        let v: &[&str] = match (self.bench_mode, self.test_args_shape % 3) {
+            (true, _) => &["--bench"],
+            (false, 0) => &["--test"],
+            (false, 1) => &["--bench", "--test"],
+            (false, _) => &["--test", "--bench"],
+        };
+        v.iter().map(|s| s.to_string()).collect()
+    }
 }
 
 /// Per field: flag, else environment, else builder.
@@ -269,7 +296,8 @@ pub fn merge(flags: &OptSpec, env: &OptSpec, builder: &OptSpec) -> OptSpec {
 
 pub fn check_builder_cli(c: &BuilderCliCase) -> Verdict {
     let runner = merge(&c.flags, &c.env, &c.builder);
-    let mut args: Vec<String> = vec![if c.bench_mode { "--bench".into() } else { "--test".into() }, "--timer".into(), "tsc".into()];
+    let mut args: Vec<String> = c.mode_args();
+    args.extend(["--timer".to_string(), "tsc".to_string()]);
     args.extend(c15::cli_args(&c.flags));
     let mut env = c15::cli_env(&c.env);
     env.push(("VCHECK_TWIN_BUILDER".into(), serde_json::to_string(&c.builder).unwrap()));
@@ -281,7 +309,7 @@ pub fn check_builder_cli(c: &BuilderCliCase) -> Verdict {
     vensure!(code == 0, "cli-exit", "exit code {code} for {args:?} {env:?}: {stderr}");
     match c15::judge(&c.spec, &runner, 0, c.bench_mode, &run) {
         Ok(n) => {
-            classify(format!("builder={} flags={} env={}", !c.builder.is_empty(), !c.flags.is_empty(), !c.env.is_empty()));
+            classify(format!("builder={} flags={} env={}{}", !c.builder.is_empty(), !c.flags.is_empty(), !c.env.is_empty(), if !c.bench_mode && c.test_args_shape % 3 != 0 { " --bench+--test" } else { "" }));
             Verdict::pass(n && !c.builder.is_empty())
         }
         Err((sig, msg)) => Verdict::fail(format!("builder-cli:{sig}"), format!("{msg}\nbuilder {:?}\nargs {args:?} env {env:?}", c.builder)),
@@ -298,9 +326,9 @@ pub fn builder_cli_case() -> impl Strategy<Value = BuilderCliCase> {
             o
         })
     };
-    (twingen::spec_with(0.3), opts(0.5), opts(0.3), opts(0.3), any::<bool>()).prop_map(|(mut spec, builder, flags, env, bench_mode)| {
+    (twingen::spec_with(0.3), opts(0.5), opts(0.3), opts(0.3), any::<bool>(), 0u8..=2).prop_map(|(mut spec, builder, flags, env, bench_mode, test_args_shape)| {
         keep_short(&mut spec);
-        BuilderCliCase { spec, builder, flags, env, bench_mode }
+        BuilderCliCase { spec, builder, flags, env, bench_mode, test_args_shape }
     })
 }
 
@@ -310,7 +338,7 @@ fn groups(g: &mut Groups) {
     g.prop("twin_routes", 8_000, 800_000, || route_case(), check_route);
     g.prop("builder_then_cli", 800, 40_000, || builder_cli_case(), check_builder_cli);
     // The same route with the command line parsed in this process (hook `__verif::cli`).
-    g.prop("builder_then_cli_inproc", 8_000, 400_000, || builder_cli_case(), |c| twin::with_cli_in_process(|| check_builder_cli(c)));
+    g.prop("builder_then_cli_inproc", 16_000, 400_000, || builder_cli_case(), |c| twin::with_cli_in_process(|| check_builder_cli(c)));
     g.enumerate(
         "golden",
         |_| {
